@@ -448,6 +448,7 @@ struct Env {
     metrics: &'static Metrics,
     blocks: BlockFactory,
     sessions: u64,
+    timeouts: u32,
 }
 
 struct ExecSession {
@@ -583,7 +584,10 @@ fn take_log(env: &Env) -> String {
     }
 }
 
-const OP_TIMEOUT: Duration = Duration::from_secs(20);
+const OP_TIMEOUT: Duration = Duration::from_secs(10);
+/// after this many timed-out ops the executor part of the run is abandoned (a code change that
+/// makes the executor hang must not stall the check; every abandoned op is a disagreement)
+const MAX_TIMEOUTS: u32 = 4;
 
 fn new_exec_session(env: &mut Env, cfg: Cfg) -> Result<ExecSession, &'static str> {
     env.sessions += 1;
@@ -718,6 +722,9 @@ fn exec(env: &mut Env, sess: &mut Session, op: &str) -> String {
             let Session::Exec(s) = sess else {
                 return "err:no-session".to_string();
             };
+            if env.timeouts >= MAX_TIMEOUTS {
+                return "err:aborted".to_string();
+            }
             let res = match t[0] {
                 "soft" => {
                     let h: u64 = t[1].parse().unwrap();
@@ -825,8 +832,10 @@ fn exec(env: &mut Env, sess: &mut Session, op: &str) -> String {
                 "cscan" => {
                     // reveal the whole content: try to insert a probe (tag 0) at every height from
                     // `next` to `hi` (occupied slots answer `Occupied`), then pop everything
-                    let hi: u64 = t[1].parse().unwrap();
+                    // (at most 64 heights, so that a cache whose next height went astray cannot
+                    // stall the run)
                     let lo = c.next_height_to_pop();
+                    let hi: u64 = t[1].parse::<u64>().unwrap().min(lo + 63);
                     let mut occ = vec![];
                     let mut h = lo;
                     while h <= hi {
@@ -1185,6 +1194,7 @@ fn driver() {
         metrics,
         blocks: BlockFactory::new(),
         sessions: 0,
+        timeouts: 0,
     };
 
     let ops = match common::replay_lines() {
@@ -1205,6 +1215,9 @@ fn driver() {
     let mut sess = Session::None;
     for op in &ops {
         let res = exec(&mut env, &mut sess, op);
+        if res.starts_with("err:timeout") {
+            env.timeouts += 1;
+        }
         trace.line(&format!("executor {op} => {res}"));
     }
     trace.finish();
